@@ -3,6 +3,7 @@ package sim
 import (
 	"fmt"
 	"runtime/debug"
+	"time"
 
 	"github.com/cockroachdb/pebble/vfs"
 	"github.com/ethereum/go-ethereum/log"
@@ -72,6 +73,17 @@ type guardValidator struct {
 	name  string
 	rec   *[]panicRec
 	calls []valRec
+	// seeded preemption of the goroutine that validates (fault: the worker loses the processor in the
+	// middle of a validation, as it does on a loaded machine or with more than one core)
+	preemptEvery uint64
+	preemptSeed  uint64
+	preempts     uint64
+	// alignMs > 0: the validating goroutine is held back until the next multiple of alignMs (a stalled
+	// worker): validations that arrive within one such interval begin at the same instant
+	alignMs  int64
+	stalls   int
+	active   int // validations in progress
+	overlaps int // validations that began while another one was in progress
 }
 
 type valRec struct {
@@ -83,10 +95,41 @@ func (g *guardValidator) ValidateContent(k, c []byte) (err error) {
 	defer func() {
 		if r := recover(); r != nil {
 			*g.rec = append(*g.rec, panicRec{where: g.name + " validator", val: r, stack: string(debug.Stack())})
+			if g.preemptEvery > 0 {
+				g.preempts += verifPreemptMe(0, 0)
+			}
 			panic(r)
 		}
 	}()
-	err = g.inner.ValidateContent(k, c)
+	if g.alignMs > 0 {
+		if rem := g.alignMs - time.Now().UnixMilli()%g.alignMs; rem < g.alignMs {
+			g.stalls++
+			time.Sleep(time.Duration(rem) * time.Millisecond)
+		}
+	}
+	if g.active > 0 {
+		g.overlaps++
+	}
+	g.active++
+	defer func() { g.active-- }()
+	if g.preemptEvery > 0 {
+		// per validation: not at all, often, or once in a long while (one goroutine that loses the
+		// processor once while another runs through undisturbed is the classic lost-update schedule)
+		g.preemptSeed += 0x9e3779b97f4a7c15
+		every := g.preemptEvery
+		switch r := mix64(g.preemptSeed) % 10; {
+		case r < 4:
+			every = 1 << 40
+		case r < 8:
+			every = 100 + mix64(g.preemptSeed^1)%4000
+		}
+		verifPreemptMe(every, g.preemptSeed)
+		err = g.inner.ValidateContent(k, c)
+		n := verifPreemptMe(0, 0)
+		g.preempts += n
+	} else {
+		err = g.inner.ValidateContent(k, c)
+	}
 	g.calls = append(g.calls, valRec{key: append([]byte(nil), k...), val: append([]byte(nil), c...), err: err})
 	return err
 }
